@@ -219,6 +219,9 @@ func (x *Exec) callWrites(c *ssa.CallCommon, w *writeSet, depth int) {
 			}
 			w.all = true
 			return
+		} else if nt, ok := types.Unalias(c.Value.Type()).(*types.Named); ok && nt.Obj().Pkg() != nil && x.eng.cs.Funcs[shortPkg(nt.Obj().Pkg().Path())+"."+nt.Obj().Name()] != nil {
+			x.contractWrites(x.eng.cs.Funcs[shortPkg(nt.Obj().Pkg().Path())+"."+nt.Obj().Name()], w)
+			return
 		} else {
 			w.all = true
 			return
